@@ -40,6 +40,9 @@ SWEEP_FRACS = [0.0, 0.5, 0.999]
 MAX_SWEEP_PASSES = {"docutils": 400, "sphinx": 160}
 
 
+# (a body damaged only near its end is not in this set: the pinned loader deliberately tolerates a truncated zlib
+# stream and returns the complete lines, so such a file is not "unloadable" for it)
+UNLOADABLE = {"inv_bad_header", "inv_not_compressed", "inv_garbage_body", "inv_bad_utf8", "inv_empty"}
 SUPPRESSIBLE = ["myst", "myst.html", "myst.topmatter", "myst.directive_option", "myst.directive_parse",
                 "myst.directive_unknown", "myst.role_unknown", "myst.substitution", "myst.inv_retrieval",
                 "myst.xref_missing", "myst.header", "myst.not_supported", "myst.strikethrough", "myst.iref_missing",
@@ -220,7 +223,9 @@ class Engine:
                                 files[d] = files[d].rstrip("\n") + f"\n\n{links}\n"
                             else:
                                 files[d] = head + "\n\n" + links + sep + tail
+        inv_conditions = dict(zip(["key", "remote", "third"], inv_hazards))
         base = {"engine": self.name, "front_end": front_end, "files": files, "cfg": cfg, "urls": urls,
+                "inv_conditions": inv_conditions,
                 "parse_docs": parse_docs, "hazards": hazards + inv_hazards,
                 # post-transforms depend on the builder (latex/texinfo raise NoUri for documents outside their tree)
                 "builder": g.choice(["xml"] * 10 + ["html"] * 3 + ["latex", "latex", "latex", "texinfo", "texinfo", "text",
@@ -308,6 +313,20 @@ class Engine:
                             violate("I4", f"{fe}:{t['site']}/open/{t['outcome'][4:]}:static-condition-not-reported", [],
                                     front_end=fe, call=t, messages=rec["msgs"][:15])
                             break
+                # ... and an inventory that was fetched but cannot be a valid inventory (bad header, not compressed,
+                # a body that is no zlib stream, invalid UTF-8, empty) is reported as a failed load, not silently taken
+                # as empty
+                if not violations and rec["status"] == "ok" and not _suppresses_inv(plan["cfg"]):
+                    fetched = sum(1 for t in rec["trace"] if t["site"].startswith("inventory.py")
+                                  and t["op"] in ("open", "urlopen"))
+                    if fetched >= len(plan["cfg"].get("inventories") or {}) > 0:  # all were loaded (lazily, at once)
+                        for key, h in (plan.get("inv_conditions") or {}).items():
+                            if h in UNLOADABLE and key in plan["cfg"]["inventories"]:
+                                count("i4_static_checked_inventory")
+                                if not any("inv_retrieval" in m and f"'{key}'" in m for m in rec["msgs"]):
+                                    violate("I4", f"{fe}:inventory/{h}:unloadable-inventory-not-reported", [],
+                                            front_end=fe, key=key, condition=h, messages=rec["msgs"][:15])
+                                    break
             trace = rec["trace"] if rec is not None else []
 
             # ---- fault plans
